@@ -103,6 +103,56 @@ func runC03(e *core.Env) error {
 				w.step(t, noFault)
 				w.node.SetBefore(nil)
 				w.tags["reorg-in-step"]++
+			case op == 11 && w.head() >= start+3:
+				// a reorg lands in the MIDDLE of one batch reply: the first elements of the
+				// eth_getBlockByNumber batch come from the old fork, the last one from the new fork
+				// (whose parent is the NEW version of the block before it): the reply is inconsistent,
+				// the client must reject it, and the retry must not be served from it either
+				fired := false
+				w.salt++
+				salt := w.salt
+				w.node.SetAfter(func(ex *simnode.Exchange) {
+					if fired || !ex.Batch || len(ex.Requests) < 2 || len(ex.Responses) != len(ex.Requests) {
+						return
+					}
+					for _, rq := range ex.Requests {
+						if rq.Method != "eth_getBlockByNumber" {
+							return
+						}
+					}
+					last, ok := ex.Responses[len(ex.Responses)-1]["result"].(map[string]any)
+					if !ok {
+						return
+					}
+					e1 := hexn(last["number"]) // number of the last block of the batch
+					c := w.node.Chain()
+					if int(e1) >= len(c.Blocks) || e1 < 2 || e1-1 < start {
+						return
+					}
+					fired = true
+					depth := len(c.Blocks) - int(e1-1) // fork point = e1-1: that block and everything above is replaced
+					c.Reorg(depth, depth+1, simnode.GenOpts{Salt: salt, MakeTx: transferMakeTx})
+					w.node.Redispatch(ex, len(ex.Responses)-1)
+				})
+				bt, bc := t.batch, t.conc
+				if t.batch < 3 || t.conc > 1 { // one partition of at least three blocks
+					t.batch, t.conc = 3+rr.Intn(3), 1
+					if err := w.buildTask(t); err != nil {
+						return err
+					}
+					w.ops = append(w.ops, fmt.Sprintf("w-task %s %s %s %s %d %d %d %d _", t.id, t.src, t.ig, t.table, t.start, t.stop, t.batch, t.conc))
+					w.outs = append(w.outs, "ok")
+				}
+				_, _ = bt, bc
+				w.step(t, noFault)
+				w.node.SetAfter(nil)
+				if fired {
+					w.tags["reorg-mid-batch"]++
+					w.step(t, noFault) // the retry
+					if shared {
+						w.step(core.Pick(rr, tasks), noFault) // another integration on the same client reads the range
+					}
+				}
 			case op < 9 && !shared:
 				// the batch size in effect changes
 				t.batch, t.conc = 1+rr.Intn(9), 1+rr.Intn(4)
